@@ -16,7 +16,9 @@ CONSTANTS Shapes,       \* binary species tree shapes
           Forks,        \* possible fork thicknesses of ancestral species
           Spacing,      \* min_subtree_spacing
           Level,        \* level_spacing
-          ShiftBug      \* TRUE: the right subtree is not shifted by the width of the left one (self-test mutant)
+          ShiftBug,     \* TRUE: the right subtree is not shifted by the width of the left one (self-test mutant)
+          GrowBox       \* TRUE: a subtree box grows to hold a trunk wider than its children (repaired code);
+                        \* FALSE: the pinned tree, where such a trunk sticks out of the box (defect D9)
 
 VARIABLES st, tsz, frk, k, pc, hv, vv
 vars == <<st, tsz, frk, k, pc, hv, vv>>
@@ -31,10 +33,14 @@ SizeV(l, r, tw, th, f) ==
       ltd == l.size[1] - (l.trunk[1] + l.trunk[3])
       rtd == r.trunk[1]
       sp == Max2(tw - (ltd + rtd), Spacing)
-  IN [size |-> <<l.size[1] + sp + r.size[1], span>>,
-      lpos |-> <<0, span - l.size[2]>>,
-      rpos |-> <<(IF ShiftBug THEN 0 ELSE l.size[1]) + sp, span - r.size[2]>>,
-      trunk |-> <<l.size[1] + (sp - tw) \div 2, 0, tw, th>>,
+      w == l.size[1] + sp + r.size[1]
+      tx == l.size[1] + (sp - tw) \div 2
+      before == IF GrowBox /\ tx < 0 THEN -tx ELSE 0
+      after == IF GrowBox /\ tx + tw > w THEN tx + tw - w ELSE 0
+  IN [size |-> <<w + before + after, span>>,
+      lpos |-> <<before, span - l.size[2]>>,
+      rpos |-> <<before + (IF ShiftBug THEN 0 ELSE l.size[1]) + sp, span - r.size[2]>>,
+      trunk |-> <<before + tx, 0, tw, th>>,
       exact |-> (sp - tw) % 2 = 0]
 \* the horizontal packing, as the code writes it (x and y exchanged by hand)
 SizeH(l, r, tw, th, f) ==
@@ -42,10 +48,14 @@ SizeH(l, r, tw, th, f) ==
       ltd == l.size[2] - (l.trunk[2] + l.trunk[4])
       rtd == r.trunk[2]
       sp == Max2(th - (ltd + rtd), Spacing)
-  IN [size |-> <<span, l.size[2] + sp + r.size[2]>>,
-      lpos |-> <<span - l.size[1], 0>>,
-      rpos |-> <<span - r.size[1], (IF ShiftBug THEN 0 ELSE l.size[2]) + sp>>,
-      trunk |-> <<0, l.size[2] + (sp - th) \div 2, tw, th>>,
+      h == l.size[2] + sp + r.size[2]
+      ty == l.size[2] + (sp - th) \div 2
+      before == IF GrowBox /\ ty < 0 THEN -ty ELSE 0
+      after == IF GrowBox /\ ty + th > h THEN ty + th - h ELSE 0
+  IN [size |-> <<span, h + before + after>>,
+      lpos |-> <<span - l.size[1], before>>,
+      rpos |-> <<span - r.size[1], before + (IF ShiftBug THEN 0 ELSE l.size[2]) + sp>>,
+      trunk |-> <<0, before + ty, tw, th>>,
       exact |-> (sp - th) % 2 = 0]
 LeafInfo(tw, th) == [size |-> <<tw, th>>, lpos |-> <<0, 0>>, rpos |-> <<0, 0>>, trunk |-> <<0, 0, tw, th>>, exact |-> TRUE]
 
@@ -86,8 +96,6 @@ PlaceStep == /\ pc = "place" /\ pc' = "done"
              /\ UNCHANGED <<st, tsz, frk, k>>
 Spec == Init /\ [][SizeStep \/ PlaceStep]_vars
 
-\* (a trunk may stick out of its own subtree box when it is wider than both
-\* child subtrees together - TLC exhibits it; the contract does not forbid it)
 Contract(info) ==
   /\ \A u \in Internal(st) : LET kd == Kids(st, u) IN
         /\ Disjoint(info[kd[1]].rect, info[kd[2]].rect)
@@ -97,5 +105,8 @@ TrunksInv == pc = "done" => \A u, v \in Nodes(st) : u < v =>
                Disjoint(vv[u].trunk, vv[v].trunk) /\ Disjoint(hv[u].trunk, hv[v].trunk)
 MirrorInv == pc = "done" => \A u \in Nodes(st) :
                hv[u].rect = TransposeRect(vv[u].rect) /\ hv[u].trunk = TransposeRect(vv[u].trunk)
+\* every trunk lies inside the box of its own subtree (what keeps trunks of
+\* neighbouring subtrees apart); false in the pinned tree for wide trunks
+TrunkInsideInv == pc = "done" => \A u \in Nodes(st) : Inside(vv[u].trunk, vv[u].rect) /\ Inside(hv[u].trunk, hv[u].rect)
 ExactInv == \A u \in DOMAIN vv : vv[u].exact /\ hv[u].exact
 =============================================================================
